@@ -6,6 +6,7 @@ import (
 	dtpb "github.com/google/fhir/go/proto/google/fhir/proto/r4/core/datatypes_go_proto"
 	orgpb "github.com/google/fhir/go/proto/google/fhir/proto/r4/core/resources/organization_go_proto"
 	ppb "github.com/google/fhir/go/proto/google/fhir/proto/r4/core/resources/patient_go_proto"
+	"github.com/shopspring/decimal"
 	"github.com/verily-src/fhirpath-go/fhirpath/system"
 	"github.com/verily-src/fhirpath-go/internal/verifrt"
 )
@@ -33,5 +34,28 @@ func VerifHarness_C04_ExpressionHasNoMemoryOfEarlierInputs() {
 		same = got[k] == want[k]
 	}
 	verifrt.Assert(same, "a-used-expression-evaluates-like-a-fresh-one")
+	verifrt.Reach("end")
+}
+
+// C04: the arithmetic operators share nothing that they write: with every package-level variable of the repository
+// and the settings of the decimal library protected, an operation on Decimals of up to 20 decimal places writes to none
+// of them - and what `a / b` yields does not depend on which operation was evaluated before it.
+func VerifHarness_C04_OperatorsHaveNoMemory() {
+	verifrt.ProtectGlobals()
+	ops := []func(system.Any, system.Any) (system.Any, error){EvaluateAdd, EvaluateSub, EvaluateMul, EvaluateDiv, EvaluateFloorDiv, EvaluateMod}
+	first := ops[verifrt.Choose("op", len(ops))]
+	scale := []int32{0, 2, 16, 17, 20}[verifrt.Choose("scale", 5)]
+	a := system.Decimal(decimal.New(int64(verifrt.NondetIntRange("a", 1, 9)), -scale))
+	b := system.Decimal(decimal.New(int64(verifrt.NondetIntRange("b", 1, 9)), -[]int32{0, 1, 20}[verifrt.Choose("scaleB", 3)]))
+	before, errB := EvaluateDiv(system.Decimal(decimal.New(1, 0)), system.Decimal(decimal.New(3, 0)))
+	_, _ = first(a, b)
+	verifrt.CheckFrames()
+	after, errA := EvaluateDiv(system.Decimal(decimal.New(1, 0)), system.Decimal(decimal.New(3, 0)))
+	same := errB == nil && errA == nil
+	if same {
+		x, y := decimal.Decimal(before.(system.Decimal)), decimal.Decimal(after.(system.Decimal))
+		same = x.Cmp(y) == 0 && x.Exponent() == y.Exponent()
+	}
+	verifrt.Assert(same, "a-quotient-does-not-depend-on-what-was-evaluated-before")
 	verifrt.Reach("end")
 }
